@@ -298,7 +298,8 @@ def gen_schema(rng):
                            ("e", N(list(s.enums)[0]), None), ("j", N(s.scalars[0]), None),
                            ("li", L(N("Int")), None), ("lli", L(L(N("Int"))), None),
                            ("lnn", L(NN(N("Int"))), None), ("nnl", NN(L(N("Int"))), ("list", [])),
-                           ("inp", N(list(s.inputs)[-1]), None), ("linp", L(N(list(s.inputs)[0])), None)],
+                           ("inp", N(list(s.inputs)[-1]), None), ("linp", L(N(list(s.inputs)[0])), None),
+                           ("jn", NN(N(s.scalars[0])), ("int", "0")), ("ljn", L(NN(N(s.scalars[0]))), None)],
                N("Int")))
     qf.append(("need", [("n", NN(N("Int")), None), ("d", NN(N("Int")), ("int", "3"))], N("String")))
     qf.append(("count", [], NN(N("Int"))))
@@ -1374,6 +1375,28 @@ def directed(rng, sch, budget):
                   (("list", [("null",)]), None), (("list", [("list", [("null",)])]), None), (("obj", [("a", ("null",))]), None)]:
         out.append(("custom-scalar-literal", [mk_op([mk_field("scalars", args=[("j", v)])],
                                                     vars_=[("v", vt, None, [])] if vt else [])]))
+    # D3b. literals for a non-null custom scalar (jn: J! = 0) and a list of them (ljn: [J!]): null and variables
+    # at every place inside list and object literals; null itself where J! is expected
+    for a, v, vt in [("jn", ("list", [("null",)]), None), ("jn", ("list", [("list", [("null",)]), ("null",)]), None),
+                     ("jn", ("obj", [("a", ("null",))]), None), ("jn", ("null",), None),
+                     ("jn", ("list", [("obj", [("a", ("list", [("null",)]))])]), None),
+                     ("jn", ("list", [("var", "v")]), N(jn)), ("jn", ("list", [("var", "v")]), NN(N(jn))),
+                     ("jn", ("list", [("var", "v")]), N("Int")), ("jn", ("var", "v"), N(jn)),
+                     ("jn", ("list", [("var", "undefinedVar")]), None),
+                     ("jn", ("obj", [("a", ("var", "undefinedVar"))]), None),
+                     ("jn", ("obj", [("a", ("list", [("obj", [("b", ("var", "undefinedVar"))])]))]), None),
+                     ("jn", ("list", [("obj", [("a", ("var", "undefinedVar"))])]), None),
+                     ("jn", ("obj", [("a", ("var", "v")), ("b", ("list", [("var", "v")]))]), N("String")),
+                     ("ljn", ("list", [("null",)]), None), ("ljn", ("list", [("list", [("null",)])]), None),
+                     ("ljn", ("list", [("obj", [("a", ("null",))])]), None), ("ljn", ("null",), None),
+                     ("ljn", ("list", [("list", [("var", "v")])]), N(jn)), ("ljn", ("list", [("var", "v")]), N(jn)),
+                     ("ljn", ("list", [("var", "v")]), NN(N(jn))),
+                     ("ljn", ("list", [("obj", [("a", ("var", "undefinedVar"))])]), None),
+                     ("ljn", ("obj", [("a", ("var", "undefinedVar"))]), None),
+                     ("j", ("obj", [("a", ("list", [("obj", [("b", ("var", "undefinedVar"))])]))]), None),
+                     ("j", ("obj", [("a", ("var", "v")), ("b", ("var", "undefinedVar"))]), N("Int"))]:
+        out.append(("custom-scalar-literal-non-null", [mk_op([mk_field("scalars", args=[(a, v)])],
+                                                             vars_=[("v", vt, None, [])] if vt else [])]))
     for vt in [N(sch.composites()[0]), N("ZzNoType"), L(N(list(sch.objects)[0])), N(list(sch.inputs)[0]), N(list(sch.enums)[0])]:
         out.append(("variable-type-kind", [mk_op([mk_field("scalars", args=[("j", ("obj", [("a", ("var", "v"))]))])],
                                                  vars_=[("v", vt, None, [])])]))
